@@ -274,6 +274,14 @@ class CaseInsensitiveDict(OrderedDict):
         key = key.lower() if isinstance(key, str) else key
         return super().__contains__(key)
 
+    def __delitem__(self, key):
+        key = key.lower() if isinstance(key, str) else key
+        super().__delitem__(key)
+
+    def pop(self, key, *args):
+        key = key.lower() if isinstance(key, str) else key
+        return super().pop(key, *args)
+
 
 class CaseInsensitiveDefaultDict(defaultdict):
     """
